@@ -18,6 +18,7 @@ Definition client (o : op) : prog :=
   | OPoolFree => api zs o ;; SetNull (P_ctx 10)
   | OMtCreate _ => IfNull M_mtctx (api zs o) Skip
   | OMtFree => api zs o ;; SetNull M_mtctx
+  | OMtResize _ _ _ _ _ _ => IfNull M_mtctx Skip (api zs o)
   | OCCtxCreate => IfNull K_cctx (api zs o) Skip
   | OCCtxFree => api zs o ;; SetNull K_cctx
   | OLoadDict _ _ | OCompress _ _ _ | OCompressAny _ _ | OCompressMT _ _ _ _ _ _ _ _ _ | ORefCDict | OReset
@@ -49,10 +50,17 @@ Definition pool_op (o : op) : bool :=
   | _ => false
   end.
 Definition mtctx_op (o : op) : bool :=
-  match o with OMtCreate w => negb (w =? 0) | OMtFree => true | _ => false end.
+  match o with OMtCreate w => negb (w =? 0) | OMtFree => true | OMtResize _ _ _ _ _ w => negb (w =? 0) | _ => false end.
+(* histories of a ZSTD_CCtx used with nbWorkers >= 1 (cctx_op) and with nbWorkers = 0 (cctx_st_op); the two sub-objects
+   involved (ZSTDMT_CCtx, single-thread workspace) do not interact in the model, their product is not computed *)
 Definition cctx_op (o : op) : bool :=
   match o with
-  | OCCtxCreate | OCCtxFree | OLoadDict _ _ | OCompressAny _ _ | OCompressMT _ _ _ _ _ _ _ _ _ | ORefCDict | OReset => true
+  | OCCtxCreate | OCCtxFree | OLoadDict _ _ | OCompressMT _ _ _ _ _ _ _ _ _ | ORefCDict | OReset => true
+  | _ => false
+  end.
+Definition cctx_st_op (o : op) : bool :=
+  match o with
+  | OCCtxCreate | OCCtxFree | OLoadDict _ _ | OCompressAny _ _ | ORefCDict | OReset => true
   | _ => false
   end.
 Definition dctx_op (o : op) : bool :=
@@ -76,9 +84,13 @@ Definition teardown_dicts : prog :=
 
 (* representatives: one operation per program shape (sizes are irrelevant to the shape) *)
 Definition pool_reps : list op := [OPoolCreate 1 0; OPoolResize 0 1; OPoolResize 1 1; OPoolFree].
-Definition mtctx_reps : list op := [OMtCreate 1; OMtFree].
+Definition mtctx_resize_reps : list op :=
+  flat_map (fun cap => flat_map (fun j => flat_map (fun b => flat_map (fun c => map (fun q => OMtResize cap j b c q 2) [0; 100]) [0; 100]) [0; 100]) [0; 100]) [0; 100].
+Definition mtctx_reps : list op := [OMtCreate 1; OMtFree] ++ mtctx_resize_reps.
 Definition cctx_reps : list op :=
-  [OCCtxCreate; OCCtxFree; OLoadDict false 0; OLoadDict true 0; OCompressAny 0 0; OCompressMT 0 0 0 0 0 0 0 0 0; ORefCDict; OReset].
+  [OCCtxCreate; OCCtxFree; OLoadDict false 0; OLoadDict true 0; OCompressMT 0 0 0 0 0 0 0 0 0; ORefCDict; OReset].
+Definition cctx_st_reps : list op :=
+  [OCCtxCreate; OCCtxFree; OLoadDict false 0; OLoadDict true 0; OCompressAny 0 0; ORefCDict; OReset].
 Definition dctx_reps : list op := [ODCtxCreate; ODCtxFree; ODLoadDict false 0; ODLoadDict true 0; ODStreamAny 0; ORefDDictAny 0].
 Definition dict_reps : list op :=
   [OCDictCreate 0 0; OCDictFree 0; OCDictCreate 1 0; OCDictFree 1;
